@@ -131,6 +131,59 @@ fn judge(case: &Case, zero: bool, res: Result<(), Fail>, want_err: HpkeError, si
     }
 }
 
+/// A public key constructed so that the Diffie-Hellman result of the private key this case's role
+/// pairs it with has a degenerate *shape* without being zero: one all-zero 64-bit limb, an all-zero
+/// half, a single non-zero byte. Chance never produces these (2^-64 and rarer); an all-zero test that
+/// looks at part of the result, or combines partial tests wrongly, refuses them. `use_identity`
+/// targets DH(skS, pkR) on the sender side of an Auth mode instead of the ephemeral DH.
+fn patterned_dh_key(sess: &Session, role: Role, use_identity: bool, pattern: u8, salt: u64) -> Option<(String, Vec<u8>)> {
+    let keys = sess.keys();
+    let sk: Vec<u8> = match role {
+        Role::RecipientAtSender if use_identity => keys.sk_s.clone(),
+        Role::RecipientAtSender => r::derive_key_pair(KemId::X25519, &sess.ikm_e()).0,
+        _ => keys.sk_r.clone(),
+    };
+    if sk.len() != 32 {
+        return None;
+    }
+    let name = match pattern % 9 {
+        0..=3 => format!("dh-result-limb{}-zero", pattern % 9),
+        4 => "dh-result-low-half-zero".to_string(),
+        5 => "dh-result-high-half-zero".to_string(),
+        6 => "dh-result-single-low-byte".to_string(),
+        7 => "dh-result-single-high-byte".to_string(),
+        _ => "dh-result-first-and-last-limb-zero".to_string(),
+    };
+    for ctr in 0..400u64 {
+        let mut rbytes = [0u8; 32];
+        rbytes.copy_from_slice(&gen::fill(32, 9, salt.wrapping_mul(0x9e37_79b9).wrapping_add(ctr)));
+        rbytes[31] &= 0x7f;
+        match pattern % 9 {
+            j @ 0..=3 => rbytes[8 * j as usize..8 * j as usize + 8].fill(0),
+            4 => rbytes[..16].fill(0),
+            5 => rbytes[16..].fill(0),
+            6 => {
+                let b = rbytes[0] | 2;
+                rbytes.fill(0);
+                rbytes[0] = b;
+            }
+            7 => {
+                let b = (rbytes[30] | 1) & 0x7f;
+                rbytes.fill(0);
+                rbytes[31] = b;
+            }
+            _ => {
+                rbytes[..8].fill(0);
+                rbytes[24..].fill(0);
+            }
+        }
+        if let Some(pk) = r::x25519().dh_preimage(&sk, &rbytes) {
+            return Some((name, pk.to_vec()));
+        }
+    }
+    None
+}
+
 /// Near misses of the small-order encodings and other negatives
 fn negatives(seed: u64, idx: u16, bit: u16) -> (String, Vec<u8>) {
     let small = corpus::small_order_14().unwrap_or_default();
@@ -174,6 +227,7 @@ impl Property for P {
     fn rule(&self) -> String {
         "Swept exhaustively: the 14 small-order encodings (u in {0,1,p-1,p,p+1, two order-8 values} x bit 255) x role {recipient key at sender, encapsulated key at receiver, sender identity key at receiver} x 4 modes x 3 KDFs x {sealing, export-only} x {setup, Kem::encap/decap, single-shot}, against 2 private-key sets. \
          Swept, decided by the arithmetic oracle: v + k*p (k = 0..3 while it fits 256 bits) and its neighbours (+-1, +-2, +-19) for the seven small-order u values v - the entries of low-order lists written for full 256-bit reduction, some of which are ordinary keys under RFC 7748 decoding - in 3 roles x 3 APIs, and all 256 single-bit neighbours of the seven encodings in 3 roles. \
+         Swept and generated, constructed with the harness's own curve arithmetic: public keys P = [clamp(sk)^-1 mod q]R whose DH result R with the private key of the role (ephemeral, recipient, or the sender identity key in Auth modes) is non-zero but has an all-zero 64-bit limb, an all-zero half or a single non-zero byte (curve and twist); these must be accepted. \
          Generated negatives: random 32-byte strings (with and without bit 255), small-order encodings with one bit flipped or an offset added, p+2..p+18, and keys related to the session (the expected sender key, the recipient's own key, the sender's ephemeral key presented in each role). \
          Oracle: the harness's own RFC 7748 ladder decides whether any DH in the operation is zero: zero => sender entry points Err(EncapError), receiver ones Err(DecapError), nothing produced; non-zero => setup succeeds (never rejected). \
          Non-trivial: small-order positives and near-miss negatives (everything except plain random strings)."
@@ -210,6 +264,13 @@ impl Property for P {
                     3 => {
                         how = "related:equals-ephemeral-key".into();
                         u = gen::ref_keypair(KemId::X25519, &sess.ikm_e()).1;
+                    }
+                    4..=6 => {
+                        let ident = role == Role::RecipientAtSender && sess.mode & 2 != 0 && bit % 2 == 0;
+                        if let Some((name, pk)) = patterned_dh_key(&sess, role, ident, (idx % 9) as u8, seed) {
+                            how = format!("constructed:{}", name);
+                            u = pk;
+                        }
                     }
                     _ => {}
                 }
@@ -342,11 +403,33 @@ impl Property for P {
                 }
             }
         }
+        // keys whose DH result (with the private key the role pairs them with) is non-zero but has
+        // an all-zero limb / half / all but one byte: every role, Auth-mode identity DH included
+        let mut patterned = Vec::new();
+        for pattern in 0..9u8 {
+            for (role, mode, ident) in [
+                (Role::RecipientAtSender, 0u8, false),
+                (Role::RecipientAtSender, 2, false),
+                (Role::RecipientAtSender, 3, true),
+                (Role::EncAtReceiver, 0, false),
+                (Role::EncAtReceiver, 3, false),
+                (Role::SenderIdAtReceiver, 2, false),
+                (Role::SenderIdAtReceiver, 3, false),
+            ] {
+                let s = Suite { kem: KemId::X25519, kdf: KdfId::Sha256, aead: AeadId::ChaCha };
+                let sess = gen::cell_session(s, mode, 17);
+                if let Some((name, pk)) = patterned_dh_key(&sess, role, ident, pattern, 1000 + pattern as u64) {
+                    for api in [Api::Setup, Api::Kem, Api::SingleShot] {
+                        patterned.push(Case { sess: sess.clone(), role, api, how: format!("constructed:{}", name), u: Bytes(pk.clone()) });
+                    }
+                }
+            }
+        }
         let mut all_ff = [0xffu8; 32];
         near.push(Case { sess: gen::cell_session(Suite { kem: KemId::X25519, kdf: KdfId::Sha256, aead: AeadId::ChaCha }, 0, 13), role: Role::EncAtReceiver, api: Api::Setup, how: "near-miss:2^256-1".into(), u: Bytes(all_ff.to_vec()) });
         all_ff[31] = 0x7f;
         near.push(Case { sess: gen::cell_session(Suite { kem: KemId::X25519, kdf: KdfId::Sha256, aead: AeadId::ChaCha }, 0, 13), role: Role::EncAtReceiver, api: Api::Setup, how: "near-miss:2^255-1".into(), u: Bytes(all_ff.to_vec()) });
-        vec![("small_order_14_x_roles_x_modes_x_kdf_x_aead_x_api".into(), v), ("fixed_near_misses".into(), near), ("integer_aliases_and_bit_neighbours_of_small_order_u".into(), aliases)]
+        vec![("small_order_14_x_roles_x_modes_x_kdf_x_aead_x_api".into(), v), ("fixed_near_misses".into(), near), ("integer_aliases_and_bit_neighbours_of_small_order_u".into(), aliases), ("constructed_keys_with_patterned_dh_results".into(), patterned)]
     }
     fn check(&self, case: &Case, obs: &mut Obs) -> Verdict {
         check(case, obs)
